@@ -5,7 +5,7 @@ import os
 import re
 
 from core import RuleOut
-from hirlib import callee, ctor_variant, peel, peel_refs, walk
+from hirlib import callee, ctor_variant, peel, peel_refs, strip_generics, walk
 
 TK = "crate::tokenizer::TokenKind"
 PARSER = "crate::parser::Parser::"
@@ -808,4 +808,222 @@ def rule_readable(crate):
             out.violation(key, cf, cl, "`%s` is rendered from a type scheme of its own, instantiated with default names (A, B, …) instead of the function's type-parameter names: `fn cube<D: Dim>(x: D) -> D^3 = y where y = x^3` is echoed with `where y: A³ = x³`, which does not read back" % tgt)
     out.analysed = {"readable_types_in_arm": len(calls), "named": n_ok}
     out.floor("readable_types_in_arm", len(calls), 3)
+    return out
+
+
+# ---------------------------------------------------------------- OPERANDS: which operands the printer leaves bare
+def _closure_bare_set(crate, clos, all_kinds):
+    """kinds of expression a `|expr| if matches!(expr, P) {A} else {B}` closure prints WITHOUT parentheses"""
+    from hirlib import pat_variants
+
+    body = peel(clos["body"])
+    if body.get("k") == "Block" and body.get("tail") is not None and not body.get("stmts"):
+        body = peel(body["tail"])
+    if body.get("k") != "If" or body.get("else") is None:
+        return None
+    cond = peel(body["cond"])
+    pats = set()
+    mt = cond if cond.get("k") == "Match" else None
+    if mt is None:
+        for x in walk(cond):
+            if x.get("k") == "Match":
+                mt = x
+                break
+    if mt is None:
+        return None
+    for a in mt["arms"]:
+        b = peel(a["body"])
+        if not (b.get("k") == "Lit" and isinstance(b.get("lit"), dict) and b["lit"].get("v") in (True, "true")):
+            continue
+        for p in walk(a["pat"]):
+            if p.get("k") in ("Struct", "TupleStruct") and (p.get("adt") or "") == TYPED_E and p.get("variant"):
+                v = p["variant"]
+                ops = {q.get("variant") for q in walk(p) if (q.get("adt") or "") == BINOP and q.get("variant")}
+                if v in ("BinaryOperator", "BinaryOperatorForDate") and ops:
+                    for o in ops:
+                        pats.add("%s:%s" % (v, o))
+                else:
+                    pats.add(v)
+
+    def is_bare(e):
+        return not any((callee(y) or "").endswith(("typed_ast::with_parens", "typed_ast::with_parens_liberal")) for y in walk(e) if y.get("k") == "Call")
+
+    then_bare, else_bare = is_bare(body["then"]), is_bare(body["else"])
+    if then_bare and not else_bare:
+        return set(pats)
+    if else_bare and not then_bare:
+        out_ = set()
+        for kd in all_kinds:
+            base = kd.split(":")[0]
+            if kd in pats or (base in pats):
+                continue
+            out_.add(kd)
+        return out_
+    if then_bare and else_bare:
+        return set(all_kinds)
+    return set()
+
+
+def rule_operands(crate, dispositions=None):
+    """OPERANDS — an operand is printed without parentheses only where re-reading cannot regroup it.
+
+    binop   in typed_ast::pretty_print_binop, for the arm of operator `op` (parsed at level depth d):
+              left operand  bare  =>  its kind is parsed at depth >= d   (same level is fine: left-associative)
+              right operand bare  =>  its kind is parsed at depth >  d   (a same-level right operand would be re-read
+                                       as the left-nested tree: `a + (b + c)` -> `a + b + c`)
+            kinds built at the call/primary levels are always fine; the bare sets are read off the `matches!` closures.
+    postfix the object of a field access and the callee of a callable call are printed through with_parens."""
+    from hirlib import pat_variants, local_of
+
+    dispositions = dispositions or {}
+    out = RuleOut("OPERANDS", "operands are printed bare only where the parser cannot regroup them")
+    lc = level_chain(crate)
+    if lc is None:
+        out.error("anchor missing: Parser::expression")
+        return out
+    fns, levels, depth = lc
+    built = {}
+    for nm in levels:
+        if nm in depth:
+            for v in constructed_variants(crate, fns[nm]):
+                built[v] = max(built.get(v, -1), depth[nm])
+    threshold = built.get("FunctionCall", 10 ** 6)
+    # depth at which each binary operator is parsed (through the printer's own spelling)
+    pf, ptab = printer_table(crate)
+    tok = tokenizer_map(crate)
+    op_depth = {}
+    for op, sp in (ptab or {}).items():
+        kind = tok.get(sp)
+        cands = []
+        for nm, lv in levels.items():
+            if nm in depth and any(e[1] == "match" and kind in e[2] for e in lv.events):
+                cands.append(depth[nm])
+        if cands:
+            op_depth[op] = min(cands)
+    adt = crate.adt(TYPED_E)
+    all_ops = [v["name"] for v in crate.adt(BINOP)["variants"]]
+    all_kinds = []
+    for v in [x["name"] for x in adt["variants"]]:
+        if v == "BinaryOperator":
+            all_kinds += ["%s:%s" % (v, o) for o in all_ops]
+        elif v == "BinaryOperatorForDate":
+            # only date-time plus/minus a duration and the difference of two date-times are elaborated to this variant
+            all_kinds += ["%s:%s" % (v, o) for o in ("Add", "Sub")]
+        else:
+            all_kinds.append(v)
+
+    def kind_depth(kd):
+        base = kd.split(":")[0]
+        if base in ("BinaryOperator", "BinaryOperatorForDate"):
+            return op_depth.get(kd.split(":")[1])
+        av = PARENS_RENAMES.get(base, (base,))[0]
+        return built.get(av)
+
+    fn = crate.find_fn("typed_ast::pretty_print_binop")
+    f = crate.file_of(fn)
+    ids = [p["id"] for p in fn["params"] if p.get("k") == "Binding"]
+    if len(ids) < 3:
+        out.error("anchor missing: pretty_print_binop(op, lhs, rhs)")
+        return out
+    lhs_id, rhs_id = ids[1], ids[2]
+    outer = None
+    for m in walk(fn["body"]):
+        if m.get("k") == "Match" and str(m.get("src")) == "Normal" and "BinaryOperator" in crate.ty(peel_refs(m["scrut"])):
+            outer = m
+            break
+    if outer is None:
+        out.error("anchor missing: match on the operator in pretty_print_binop")
+        return out
+    seen_ops = set()
+    n = 0
+    for a in outer["arms"]:
+        vs = pat_variants(a["pat"], BINOP)
+        ops = sorted(vs) if vs else [o for o in all_ops if o not in seen_ops]
+        if vs:
+            seen_ops |= vs
+        closures = {}
+        for st in walk(a["body"]):
+            if st.get("k") == "Let" and st.get("init") is not None and peel(st["init"]).get("k") == "Closure" and st["pat"].get("k") == "Binding":
+                closures[st["pat"]["id"]] = peel(st["init"])
+        for side, sid in (("lhs", lhs_id), ("rhs", rhs_id)):
+            bare = None  # set of kinds printed bare, over all printing sites of this operand in the arm
+            for c in walk(a["body"]):
+                if c.get("k") == "Call" and c.get("args") and local_of(c["args"][0]) == sid:
+                    cal = callee(c) or ""
+                    fl = local_of(c["f"]) if c["f"].get("k") == "Path" else None
+                    if fl in closures:
+                        bs = _closure_bare_set(crate, closures[fl], all_kinds)
+                        bare = (bare or set()) | (bs if bs is not None else set(all_kinds))
+                    elif cal.endswith("typed_ast::with_parens"):
+                        bare = bare or set()
+                    elif cal.endswith("typed_ast::with_parens_liberal"):
+                        bare = (bare or set()) | {"~quantity-literal"}
+                elif c.get("k") == "MethodCall" and c["name"] == "pretty_print" and local_of(c["recv"]) == sid:
+                    bare = set(all_kinds)
+            if bare is None:
+                continue
+            for op in ops:
+                d = op_depth.get(op)
+                if d is None:
+                    continue
+                n += 1
+                af, al = crate.loc(fn, a["pat"])
+                bad = []
+                for kd in sorted(bare):
+                    if kd == "~quantity-literal":
+                        jd = min([depth[nm] for nm, lv in levels.items() if nm in depth and any(e[1] == "implicit" for e in lv.events)] or [10 ** 6])
+                        if not (jd > d):
+                            bad.append("quantity literal `2 m` (juxtaposition)")
+                        continue
+                    kdp = kind_depth(kd)
+                    if kdp is None or kdp >= threshold:
+                        continue
+                    if (side == "lhs" and kdp < d) or (side == "rhs" and kdp <= d):
+                        bad.append(kd.replace("BinaryOperator:", ""))
+                key = "binop:%s:%s" % (op, side)
+                if not bad:
+                    out.ok(key, af, al, "%s operand of %s: bare only for kinds that bind %s" % (side, op, "at least as tightly" if side == "lhs" else "strictly tighter"))
+                else:
+                    disp = dispositions.get(key)
+                    msg = "the %s operand of `%s` is printed without parentheses when it is %s, which the parser reads at %s precedence: the echoed text regroups (`a %s (b %s c)` is echoed as `a %s b %s c`, a different tree — and for floating point a different value)" % (side, op, "/".join(bad), "the same or lower" if side == "rhs" else "lower", ptab.get(op, op), ptab.get(bad[0], bad[0]) if bad[0] in ptab else "∘", ptab.get(op, op), ptab.get(bad[0], bad[0]) if bad[0] in ptab else "∘")
+                    if disp and disp[0] == "witness":
+                        out.violation(key, af, al, msg + ". Witness: " + disp[1])
+                    else:
+                        out.violation(key, af, al, msg)
+    # ---- postfix heads
+    printers = [b for d, b in crate.hir.items() if d.endswith("::pretty_print") and strip_generics(b.get("impl_self") or "").endswith("typed_ast::Expression")]
+    if printers:
+        pfn = printers[0]
+        for pmatch in walk(pfn["body"]):
+            if pmatch.get("k") != "Match" or str(pmatch.get("src")) != "Normal":
+                continue
+            for a in pmatch["arms"]:
+                vs = pat_variants(a["pat"], TYPED_E)
+                if not vs or not (vs & {"AccessField", "CallableCall"}):
+                    continue
+                v = sorted(vs & {"AccessField", "CallableCall"})[0]
+                head_field = "expr" if v == "AccessField" else "callable"
+                hid = None
+                for p in walk(a["pat"]):
+                    if p.get("k") == "Struct" and p.get("fields"):
+                        for it in p["fields"]:
+                            if isinstance(it, list) and len(it) == 2 and str(it[0]) == head_field:
+                                for q in walk(it[1]):
+                                    if q.get("k") == "Binding":
+                                        hid = q["id"]
+                if hid is None:
+                    continue
+                n += 1
+                af, al = crate.loc(pfn, a["pat"])
+                direct = [c for c in walk(a["body"]) if c.get("k") == "MethodCall" and c["name"] == "pretty_print" and local_of(c["recv"]) == hid]
+                wrapped = [c for c in walk(a["body"]) if c.get("k") == "Call" and (callee(c) or "").endswith(("typed_ast::with_parens", "typed_ast::with_parens_liberal")) and c.get("args") and local_of(c["args"][0]) == hid]
+                key = "postfix:%s:head" % v
+                if direct:
+                    out.violation(key, *crate.loc(pfn, direct[0]), detail="the %s of a %s is printed without with_parens: `(if c then a else b)%s` is echoed without its parentheses and re-read as something else" % ("object" if v == "AccessField" else "callee", v, ".x" if v == "AccessField" else "(1)"))
+                elif wrapped:
+                    out.ok(key, af, al, "printed through with_parens")
+                else:
+                    out.advisory(key, af, al, "head operand printing not recognised; not decided")
+    out.analysed = {"operand_positions": n, "operators_with_depth": len(op_depth)}
+    out.floor("operand_positions", n, 10)
     return out
